@@ -73,6 +73,35 @@ def run(facts):
             else:
                 res.bad(key, b.loc(bi), "a Vec over the buffer start gets the view's length without a dominating copy of the view to the buffer start: "
                                         "wrong bytes whenever the view has a front offset")
+        # ---- (iii) a copy-back of the view to the buffer start is followed by giving the Vec exactly that length ----
+        if not (b.id.endswith("rebuild_vec") or "reserve_inner" in b.id):
+            for (cbi, src, dst, cn) in copies:
+                view_len = (cn[0] == "param" and b.locals[cn[1]]["ty"] == "usize" and b.safety == "unsafe") or \
+                           (isinstance(cn, tuple) and cn[0] == "field" and cn[2] == "len" and strip_ref(cn[1])[0] == "param")
+                to_start = is_call(dst, "as_mut_ptr") or dst[0] in ("param", "icall", "field") or is_call(dst, "ptr_map") or is_call(dst, "cast")
+                if not view_len or not to_start or b.blocks[cbi]["cleanup"]:
+                    continue
+                # only copies whose destination is a buffer start that then becomes a Vec (not copies into spare capacity)
+                if is_call(dst, "add") or is_call(dst, "offset"):
+                    continue
+                n += 1
+                k0 = "%s|copy-back then exact length" % b.id
+                c = cnt.get(k0, 0)
+                cnt[k0] = c + 1
+                key = k0 + ("#%d" % c if c else "")
+                ok = False
+                for (bi, p, nm, a, t) in calls:
+                    if not (cfg.dominates(cbi, bi) and bi != cbi):
+                        continue
+                    if p == "alloc::vec::Vec::<T>::from_raw_parts" and strip_ptr(a[0]) == dst and a[1] == cn:
+                        ok = True
+                    if nm == "set_len" and "alloc::vec::Vec" in p and a[1] == cn and is_call(dst, "as_mut_ptr") and strip_ref(dst[2][0]) == strip_ref(a[0]):
+                        ok = True
+                if ok:
+                    res.ok(key, b.loc(cbi), "the Vec over the buffer start gets exactly the copied length (set_len / from_raw_parts)", nontrivial=True)
+                else:
+                    res.bad(key, b.loc(cbi), "the view is copied to the buffer start but the Vec is not given exactly that length afterwards "
+                                             "(set_len(len) / from_raw_parts(buf, len, ..)): the result has the wrong length")
         # ---- (ii) whole-buffer handle + advance(off) -------------------------------------------
         for (bi, p, nm, a, t) in calls:
             vec = None
